@@ -741,7 +741,11 @@ class Interp(object):
             # one (symbolic) iteration, then leave
             elem = ("elem", it, self.site(st))
             if isinstance(it, tuple) and it[0] == "call" and it[1] == ("name", "enumerate") and it[2]:
-                elem = ("tuple", (("index", it[2][0], self.site(st)), ("elem", it[2][0], self.site(st))))
+                idx_t = ("index", it[2][0], self.site(st))
+                start = it[2][1] if len(it[2]) > 1 else dict((k, v) for k, v in it[3] if k).get("start")
+                if start is not None and start != ("const", 0):
+                    idx_t = ("bin", "+", idx_t, start)  # enumerate(xs, start): positions are shifted
+                elem = ("tuple", (idx_t, ("elem", it[2][0], self.site(st))))
             cur = list(self.assign(st.target, elem, p, st))
             for rnd in range(max(1, self.cfg.unroll)):
                 nxt = []
